@@ -25,21 +25,21 @@ Proof.
 Qed.
 
 (* in the pool => every listed condition held, and the pool accepted it *)
-Theorem admit_sound : forall c t bal s x s',
-  admit_tx c t bal s x = (inr tt, s') -> admissible c t /\ add fixed_cfg bal s x = (ROk, s').
+Theorem accept_sound : forall c t bal s x s',
+  accept_tx c t bal s x = (inr tt, s') -> admissible c t /\ add fixed_cfg bal s x = (ROk, s').
 Proof.
-  intros c t bal s x s' H. unfold admit_tx in H.
+  intros c t bal s x s' H. unfold accept_tx in H.
   destruct (precheck c t) eqn:P; [inv H|]. apply precheck_sound_complete in P.
   destruct (add fixed_cfg bal s x) as [[| | |] s1] eqn:A; inv H. auto.
 Qed.
 
 (* a refusal leaves the pool as it was; an admission keeps the pool invariant *)
-Theorem admit_pool : forall U, good_universe U -> forall c t bal s x,
+Theorem accept_pool : forall U, good_universe U -> forall c t bal s x,
   bal_ok bal -> Inv U bal s -> U x ->
-  Inv U bal (snd (admit_tx c t bal s x))
-  /\ (forall e, fst (admit_tx c t bal s x) = inl e -> pool_eqv bal s (snd (admit_tx c t bal s x))).
+  Inv U bal (snd (accept_tx c t bal s x))
+  /\ (forall e, fst (accept_tx c t bal s x) = inl e -> pool_eqv bal s (snd (accept_tx c t bal s x))).
 Proof.
-  intros U GU c t bal s x BOK I Ux. unfold admit_tx.
+  intros U GU c t bal s x BOK I Ux. unfold accept_tx.
   destruct (precheck c t); [simpl; split; auto using pool_eqv_refl|].
   pose proof (add_spec U bal GU BOK s x I Ux) as A.
   destruct (add fixed_cfg bal s x) as [r s1]; simpl in A.
